@@ -1157,9 +1157,9 @@ static void soilHeap(int pattern)
          blocks.push_back(p);
       }
    };
-   for(size_t sz = 16; sz <= 512; sz += 16) grab(sz, 48);
-   for(double z = 560; z < 300000; z *= 1.19) grab((size_t)z, z < 8192 ? 12 : 3);
-   grab(sizeof(SoPlex), 4);
+   for(size_t sz = 16; sz <= 512; sz += 16) grab(sz, 16);
+   for(double z = 560; z < 40000; z *= 1.19) grab((size_t)z, z < 4096 ? 6 : 2);
+   if(sizeof(SoPlex) < 120000) grab(sizeof(SoPlex), 2);      // (larger blocks come from fresh, zero-filled mappings anyway)
    for(size_t i = blocks.size(); i > 0; i--) free(blocks[i - 1]);
 }
 
